@@ -217,6 +217,12 @@ func NewStore(ctx context.Context, cfg StoreConfig) (*Store, error) {
 		}
 	}
 
+	// A cache holding the JSON value null decodes without error but leaves the
+	// map nil; treat it as empty like any other unusable cache.
+	if s.active.m == nil {
+		s.active.m = make(map[string]*cachedSecret)
+	}
+
 	// If there are any configured secrets that weren't cached, stub them in.
 	// Any that we loaded from the cache, mark as declared.
 	//
